@@ -125,14 +125,14 @@ plan("C02", "exploration",
      "Generated valid streams: deflate grammar programs (stored/fixed/dynamic in any order, empty blocks, random Kraft-complete codes with lengths up to 15, single-code and empty distance alphabets, "
      "16/17/18 runs crossing the table boundary, every length/distance symbol, overlap, dist 32768, final block near 2/4 KiB), zlib-encoded recipes (all levels/strategies/windowBits/memLevel/flush kinds) "
      "and ISA-L-encoded ones; wrappers raw/gzip(optional fields)/zlib x crc_flag x API x decode kernel via cpu level x hist_bits x appended garbage. Non-trivial: has a Huffman-coded match.",
-     lambda tier: [S("C02", 28000), S("C02", 4000, cfg="hist8k"), S("C02", 4000, cfg="longhuff")] if tier == "quick" else [S("C02", 400000), S("C02", 60000, cfg="hist8k"), S("C02", 60000, cfg="longhuff")],
+     lambda tier: [S("C02", 26000), S("C02", 4000, cfg="hist8k"), S("C02", 4000, cfg="longhuff"), S("C02", 2000, cfg="nostatic")] if tier == "quick" else [S("C02", 400000), S("C02", 60000, cfg="hist8k"), S("C02", 60000, cfg="longhuff"), S("C02", 30000, cfg="nostatic")],
      label_floors={"valid_streams": {"litlen-code>=13bits": 0.02, "dist=32768": 0.002, "blocks>=3": 0.05, "repeat-crosses-litlen/dist-boundary": 0.01}},
      assumptions=["streams are strictly valid: complete codes or the degenerate alphabets zlib accepts; every generated stream is first decoded by the reference decoder and by zlib, which must agree"])
 
 plan("C10", "exploration",
      "One-shot: inputs biased to incompressible/empty (0..70, 65530..65540, 131065..131075, up to 300 KiB) x level x wrapper x flush x avail_out around 0 / compressed size / bound, every value 0..bound+16 "
      "for small inputs; streaming: tiny output buffer sequences with end_of_stream; invalid parameters. Output chunks end at guard pages. Non-trivial: avail_out within 16 of the bound or compressed size, or a buffer < 8 bytes.",
-     lambda tier: [S("C10", 24000), S("C10", 3000, cfg="hist8k"), S("C10", 1500, cfg="longhuff")] if tier == "quick" else [S("C10", 500000), S("C10", 50000, cfg="hist8k"), S("C10", 30000, cfg="longhuff")],
+     lambda tier: [S("C10", 24000), S("C10", 3000, cfg="hist8k"), S("C10", 1500, cfg="longhuff")] if tier == "quick" else [S("C10", 300000), S("C10", 30000, cfg="hist8k"), S("C10", 20000, cfg="longhuff")],
      assumptions=["bound = len + 5*max(1,ceil(len/65535)) + (10,8) gzip / (0,8) gzip-no-hdr / (2,4) zlib / (0,4) zlib-no-hdr / 0 raw as stated by the property",
                   "either ISAL_INVALID_LEVEL or ISAL_INVALID_LEVEL_BUF is accepted for a missing/undersized level buffer"])
 
@@ -154,7 +154,7 @@ plan("C07", "exploration",
      "Systematic: for small inputs/streams every single split point of the input and of the output, and all pairs of (input chunk, output chunk) sizes from {0,1,2,7,8,9,15,16,17,31,32,33,255,256,257,328,329,big}; "
      "generated histories (refill-before-drain, zero-length buffers, per-call flush changes, late end_of_stream, fresh mapping per chunk) for compression and decompression (valid and corrupted streams), "
      "x levels x wrappers (gzip with FEXTRA/FNAME/FCOMMENT/FHCRC) x cpu levels. Oracle: decode == concatenated input; streaming inflate == one-shot inflate. Non-trivial: >= 3 calls with a boundary inside the data.",
-     lambda tier: [S("C07", 10000), S("C07", 1000, cfg="hist8k")] if tier == "quick" else [S("C07", 150000), S("C07", 15000, cfg="hist8k"), S("C07", 8000, cfg="longhuff")],
+     lambda tier: [S("C07", 30000), S("C07", 2000, cfg="hist8k")] if tier == "quick" else [S("C07", 150000), S("C07", 15000, cfg="hist8k"), S("C07", 8000, cfg="longhuff")],
      assumptions=["after end_of_stream no more input is supplied", "compressed bytes may differ between schedules: only decoded data is compared"])
 
 plan("C06", "fault_enumeration",
@@ -162,7 +162,7 @@ plan("C06", "fault_enumeration",
      "deflate generator and wrapper-level single faults with padding (documented error class); random bytes and multiply damaged streams with small output limits; x APIs x chunk schedules x decode kernels. "
      "Oracle: guard pages/canaries, documented codes, provable-livelock rule, lenient RFC 1951 reference (no false success), zlib agreement on strictly valid raw streams. "
      "Non-trivial: mutant got past the wrapper and produced output.",
-     lambda tier: [S("C06", 5000), F("C06", 1000)] if tier == "quick" else [S("C06", 80000), F("C06", 60000)],
+     lambda tier: [S("C06", 5000), S("C06", 400, cfg="nostatic"), F("C06", 1000)] if tier == "quick" else [S("C06", 80000), S("C06", 6000, cfg="nostatic"), F("C06", 20000)],
      assumptions=["error-class equality is asserted only for constructed single faults followed by >= 16 padding bytes", "incomplete code sets are a grey zone: neither acceptance nor rejection is an alarm",
                   "rejection of something the lenient reference accepts is never an alarm"])
 
